@@ -224,6 +224,20 @@ def clause_gymadapter(cases, ctx: Ctx):
             if not np.allclose(np.asarray(obs, dtype=float), np.asarray(eo, dtype=float)):
                 out.append((ci, "C01/gymadapter/observation", f"{where}: returned observation {np.asarray(obs).tolist()} is not that of the adapter's state {ns}" + (" (pre-reset observation?)" if done else "")))
             s, clock, cnt = ns, nclock, ncnt
+        # re-seeding an adapter that has already been used must restart the same episode (seed 0 included):
+        # reset(seed) twice -> identical state, observation and following trajectory
+        for seed in (0, c["seed"]):
+            runs = []
+            for _ in range(2):
+                o, _i = g.reset(seed=seed)
+                tr = [np.asarray(o).tolist(), int(wrapx.decode_state(g.state)["s"])]
+                for a in c["actions"][:2]:
+                    o, r_, te, tu, _i = g.step(np.asarray(a))
+                    tr += [np.asarray(o).tolist(), r_, te, tu]
+                runs.append(tr)
+            ctx.guard("gymadapter-reseed-checks")
+            if runs[0] != runs[1]:
+                out.append((ci, "C01/gymadapter/reseed-not-reproducible", f"reset(seed={seed}) on an adapter that was already used gave {runs[0]} the first time and {runs[1]} the second time"))
         ctx.traces += 1
     return out
 
